@@ -2,6 +2,8 @@ import SieveModel.Lemmas.Lex
 import SieveModel.Model.Show
 import SieveModel.Lemmas.Pos
 import SieveModel.Lemmas.Machine
+import SieveModel.Lemmas.NoCrash
+import SieveModel.Generated.Tables
 /-!
 # C02 — Parsing always terminates with a verdict: no exception, no hang
 
@@ -14,9 +16,15 @@ Proved here (all inputs, all tables):
   `Machine.deliver`), and a command cannot trigger the lexer rewind twice (`reassign_once`);
 * a rejection carries a line number `1 ≤ N ≤ 1 + #newlines`.
 
-Open (kept as statements, see `open_statements` in the evidence): crash-freedom and absence of a
-double rewind for every table satisfying `TableSafe` need the stack/bracket invariant of the
-machine; they are validated by the correspondence and the oracle, not yet by a theorem.
+* **the full statement**: for every command table satisfying the decidable condition `Safe.TableSafe`
+  and every input, `Machine.parse` ends with an acceptance or a located rejection — no exception other
+  than the parser's own (`crash`), no token delivered for ever (`hang`).  The proof is an invariant
+  over the command stack and the bracket stack (`Lemmas/Invariant.lean`, `Lemmas/NoCrash.lean`);
+  `TableSafe` is discharged for the table regenerated from `/repo` by kernel evaluation
+  (`live_table_safe`), so a change of `commands.py` that leaves it breaks this file.
+* the hypothesis is needed: `unsafe_table_crashes` exhibits a three-command table (an *action* taking
+  a test) on which the model raises — and so does the real parser when such a command is registered
+  with `add_commands` (DESIGN §22).
 -/
 namespace C02
 
@@ -66,9 +74,56 @@ theorem reject_line_in_range (text : Bytes) (p : Nat) :
 example : Show.outcome (sb "keep\nfoo;") (Machine.parse [] (sb "keep\nfoo;"))
     = "reject 1 1 4 unknownCommand 6b656570" := by decide
 
-/-- full-strength statement still to be proved (tracked as an open obligation) -/
-def parse_never_crashes_or_hangs_statement : Prop :=
-  ∀ (T : Table) (text : Bytes), (∀ d ∈ T, d.variableArgs = true → d.kind = .test) →
-    (∃ r, Machine.parse T text = .accept r) ∨ (∃ p n e, Machine.parse T text = .reject p n e)
+/-- the table regenerated from `/repo` satisfies the conditions of the invariant proof -/
+theorem live_table_safe : Safe.TableSafe Generated.builtinTable := by decide +kernel
+
+/-- **C02, full strength, any safe table**: parsing ends with a verdict -/
+theorem parse_always_verdict (T : Table) (hT : Safe.TableSafe T) (text : Bytes) (prev : PState) :
+    (∃ r, Machine.parse T text prev = .accept r) ∨ (∃ p n e, Machine.parse T text prev = .reject p n e) := by
+  obtain ⟨h1, h2⟩ := Safe.parse_verdict T hT text prev
+  cases h : Machine.parse T text prev with
+  | accept r => exact Or.inl ⟨r, rfl⟩
+  | reject p n e => exact Or.inr ⟨p, n, e, rfl⟩
+  | crash w => exact absurd h (h1 w)
+  | hang => exact absurd h h2
+
+/-- **C02 for the library's own command set**: every byte string gets a verdict, whatever the parser
+    object was used for before -/
+theorem parse_always_verdict_live (text : Bytes) (prev : PState) :
+    (∃ r, Machine.parse Generated.builtinTable text prev = .accept r) ∨
+    (∃ p n e, Machine.parse Generated.builtinTable text prev = .reject p n e) :=
+  parse_always_verdict _ live_table_safe text prev
+
+/-- every prefix of the token loop keeps the stack/bracket invariant (what the proof rests on) -/
+theorem token_loop_invariant (T : Table) (hT : Safe.TableSafe T) (toks : List Tok) :
+    match Machine.feed T toks {} 0 with
+    | .stop o => Safe.Verdict o
+    | .done s _ => Safe.Inv s :=
+  Safe.feed_spec T hT toks {} 0 Safe.Inv.init
+
+/-- a token is delivered at most twice: after a lexer rewind the state is `Calm` and cannot rewind again -/
+theorem no_double_rewind (T : Table) (hT : Safe.TableSafe T) (s : PState) (tok : Tok) (h : Safe.Inv s) (s1 s2 : PState)
+    (h1 : Machine.step T s tok = .rewind s1) : Machine.step T s1 tok ≠ .rewind s2 := by
+  have := Safe.step_spec T hT s tok h
+  rw [h1] at this
+  exact Safe.calm_no_rewind T s1 tok this.2 s2
+
+namespace Witness
+def tArg : ArgDef := { name := "test", types := [.test], required := true, values := none, extValues := [], extension := none, extra := none }
+def dIf : CmdDef := { key := sb "If", name := sb "if", kind := .control, args := [tArg], acceptChildren := true, variableArgs := false, nonDet := false, mustFollow := none, extension := none, expectedFirst := some [.identifier], special := .none }
+def dTrue : CmdDef := { key := sb "True", name := sb "true", kind := .test, args := [], acceptChildren := false, variableArgs := false, nonDet := false, mustFollow := none, extension := none, expectedFirst := none, special := .none }
+def dFoo : CmdDef := { key := sb "Foo", name := sb "foo", kind := .action, args := [tArg], acceptChildren := false, variableArgs := false, nonDet := false, mustFollow := none, extension := none, expectedFirst := none, special := .none }
+def unsafeTable : Table := [dIf, dTrue, dFoo]
+end Witness
+
+/-- the hypothesis `TableSafe` cannot be dropped: with an action that takes a test, the parser raises
+    (`AttributeError` in Python — replayed by the C02 check on the real code) -/
+theorem unsafe_table_crashes :
+    ¬ Safe.TableSafe Witness.unsafeTable ∧
+    Show.outcome (sb "if true { foo true { } }") (Machine.parse Witness.unsafeTable (sb "if true { foo true { } }"))
+      = "crash AttributeError: NoneType (up without current command)" := by
+  constructor
+  · decide +kernel
+  · decide +kernel
 
 end C02
